@@ -29,6 +29,13 @@ def run(c, chk):
     lex = c.lex
     dfa = lex.dfa
     trailing_trim(c, chk, 'R15.5')
+    from . import c03 as _c03
+    _K = {r: lexmodel.classify(lex, r) for r in lex.actions}
+    _bad = _c03.c_comment_extent(lex, _K)
+    if _bad:
+        chk.fail('R15.3', 'comment-extent', 'src/lexer.l', 'the C comment %r is not read as one comment ending at its first "*/": %s - what follows it is swallowed or mis-tokenised' % _bad)
+    else:
+        chk.ok('R15.3', 'C comment extent', 'every "/*" body "*/" over {*,/,a,blank,newline} up to 3 bytes of body is one comment token ending at the first "*/"', sample=True)
     chk.analysed = {'parser_states': len(model.states), 'lexer_rules': dfa.num_rules}
     COMMENT = pm.TOKENS['COMMENT']
 
